@@ -174,11 +174,23 @@ def rule_substitutions(ctx: Ctx):
     repo = ctx.repo
     m = repo.mod("clean")
     n = 0
+    # the cleaners the property speaks about are the ones a step name can select (cleaners_lookup), minus the html cleaner (the one
+    # that parses its argument with lxml)
+    table = m.toplevel_assign("cleaners_lookup")
+    registered = {v.id for v in table.values if isinstance(v, ast.Name)} if isinstance(table, ast.Dict) else set()
     for s in m.tree.body:
         if not isinstance(s, ast.FunctionDef) or len(s.args.args) != 1:
             continue
         body = effective_body(s)
-        if not (len(body) == 1 and isinstance(body[0], ast.Return) and isinstance(body[0].value, ast.Call) and dotted(body[0].value.func) == "re.sub"):
+        is_sub = len(body) == 1 and isinstance(body[0], ast.Return) and isinstance(body[0].value, ast.Call) and dotted(body[0].value.func) == "re.sub"
+        if not is_sub:
+            uses_lxml = any(isinstance(x, ast.Attribute) and (dotted(x) or "").startswith("lxml") for x in ast.walk(s))
+            if s.name in registered and not uses_lxml:
+                n += 1
+                ctx.ob("R-C20-4", f"clean.{s.name}/run-collapse", False,
+                       "a text cleaner selectable by name must be a single `return re.sub(<constant>, <constant>, text)` for the run-collapse lemma "
+                       "(idempotent, leaves no run, keeps all other characters in order) to apply; this one is not, so none of the three clauses is shown",
+                       node=s, mod=m)
             continue
         c = body[0].value
         n += 1
